@@ -1879,8 +1879,12 @@ def gen_cases(rng, tier, scale=1.0):
             add_ops("B", sname, [rng.choice(["setattr", "construct", "deserialize"]) for _ in range(3 if not quick else 2)],
                     max_pre=max_pre, nsched=20 if quick else 40)
     # the same exhaustive every-field-line stream on a few of the other flat shapes
+    # (racy shapes included: there the schedules do NOT depend on what the translator found, so a shared write it missed
+    # still produces a failing input)
     for sname in rng.sample(["scalar", "anyof", "oneof", "allof", "notfield", "set_int", "map_int", "pos_tuple",
-                             "twin_optional_field", "twin_anyof_none", "ser_set_date", "ser_map_date"], 2 if quick else 8):
+                             "twin_optional_field", "twin_anyof_none", "ser_set_date", "ser_map_date"], 2 if quick else 8) + \
+            rng.sample(["array_int", "deque_int", "tuple_homog", "shared_set", "shared_map", "shared_pos_array",
+                        "shared_pos_tuple", "shared_anyof", "shared_allof", "shared_immset"], 2 if quick else 10):
         if sname.startswith("twin_"):
             add_twin("E", sname, 2, max_pre=1, cap=200, **{"yield": "fieldlines"})
         else:
